@@ -581,6 +581,9 @@ func (fc *FuncCtx) typeFacts(t *Term, typ types.Type) *Term {
 	}
 	switch t.Sort.Kind {
 	case "Int":
+		if isChoice(typ) {
+			return And(Le(IntLit(0), t), Le(t, IntLit(1)))
+		}
 		if lo, hi, ok := intRange(typ); ok {
 			return And(Le(IntLitS(lo), t), Le(t, IntLitS(hi)))
 		}
